@@ -20,7 +20,8 @@ Spellings == {"oneletter", "oneletterunion", "shortpkg1", "shortpkg2", "groupedt
               "constunderscore", "emptystruct", "unexportedonly", "enumunexported", "badplaceholder", "unknowncomment",
               "fixedarrayofslices", "ptrrecvmember", "dupnames", "keyword",
               "selfslice", "selfmap", "unionlistmember", "mutualnamed", "aliaschain", "promotedmember",
-              "uniqueunknowncol", "selectkeyunknowncol", "primarykeyunknowncol", "foreignunknowntable", "queryunknowncol"}
+              "uniqueunknowncol", "selectkeyunknowncol", "primarykeyunknowncol", "foreignunknowntable", "queryunknowncol",
+              "handlerlocaltypes", "handleranonjson", "handlermapjson"}   \* route files: types declared inside the handler, an anonymous struct / a map as the JSON answer
 Targets == {"go/unions", "go/sqlcrud", "go/sqlcrud+sets", "go/randdata", "sql", "typescript/types", "typescript/api", "dart"}
 
 (* positions Go itself rejects for a form (not well-typed, hence outside the property) *)
